@@ -21,8 +21,20 @@ def prop(pid, **kw):
     return kw
 
 
+from . import tierb_c12  # noqa: E402
+
 prop("C12", level="other",
-     explanation="accept/reject contracts of the ratio and chunk-size controls",
+     stages=[tierb_c12.stage],
+     technique="Kani/CBMC contract harnesses (bit-precise, loop-free) + expression identity / Z3 QF_FP on extracted conditions",
+     explanation="Contracts of set_resample_ratio(_relative) and set_chunk_size on all seven types. Effect clauses (what an accepted / "
+                 "rejected call changes, error payloads, Ok => finite positive) are complete bit-precise proofs over the full f64/usize "
+                 "domain of arguments AND state. The accept-iff-in-range clause is decided for ALL (original,max,argument) by extracting the "
+                 "condition from the source and showing it is the documented expression (identity, else Z3 floating-point equivalence); "
+                 "Kani re-proves it on the compiled code for the full f64 argument domain at 6 concrete (original,max) pairs (labelled bounded), "
+                 "because CBMC does not terminate on the equivalence of two symbolic 53-bit dividers.",
+     level_text="every clause of the property is a discharged obligation; level is 'other' rather than 'proof' only because the "
+                "bit-precise re-check of the iff clause on the compiled code is bounded in (original,max)",
+     trusted_base=["expression extraction by vlib/rsparse.py (re-run on the working tree each time)", "IEEE-754 determinism: identical float expressions evaluate identically"],
      )
 
 NOT_APPLICABLE = {
